@@ -360,3 +360,47 @@ Print Assumptions C13_non_members_rejected.
 Example C13_roundtrips_hold : forallb ex_roundtrip roundtrips = true.
 Proof. exact roundtrips_hold. Qed.
 Print Assumptions C13_roundtrips_hold.
+
+(** ** never-Panic (slice safety) for EVERY item list, the Fixed::RFC2822 item included
+    (Proofs/C13Total.v; the older forms above, which exclude that item, are kept under their names).
+    [Proofs.C13Total.item_wf]: the only condition on an item is that a literal is a string (what
+    [Item::Literal(&str)] guarantees); [blen s <= u64_max]: the input has a length a Rust string can
+    have (the RFC 2822 reader does usize arithmetic on lengths). *)
+From V Require Proofs.C13Total.
+
+(* the RFC 2822 item on its own: value or ParseError, remainder well-formed and not longer *)
+Theorem C13_rfc2822_item_never_panics : forall p s, wf s -> blen s <= u64_max ->
+  safe (parse_rfc2822 p s) (fun x => wf (snd x) /\ blen (snd x) <= blen s).
+Proof. exact Proofs.C13Total.parse_rfc2822_copy_safe. Qed.
+Print Assumptions C13_rfc2822_item_never_panics.
+
+(* no arm of parse_internal hands on a remainder longer than its input (all arms but RFC 2822, whose
+   statement is the theorem above) *)
+Theorem C13_items_do_not_lengthen : forall items p s p' s',
+  forallb Proofs.C13Total.item_not2822 items = true ->
+  parse_internal p s items = Val (POk (p', s')) -> blen s' <= blen s.
+Proof.
+  exact (fun items p s p' s' H E =>
+           Proofs.C13Total.parse_items_len parse_rfc3339_relaxed Proofs.C13Total.relaxed_len items p s H (p', s') E).
+Qed.
+Print Assumptions C13_items_do_not_lengthen.
+
+Theorem C13_parse_internal_safe : forall items p s,
+  forallb Proofs.C13Total.item_wf items = true -> wf s -> blen s <= u64_max ->
+  safe (parse_internal p s items) good.
+Proof. exact Proofs.C13Total.parse_internal_safe_all. Qed.
+Print Assumptions C13_parse_internal_safe.
+
+Theorem C13_parse_never_panics : forall items p s,
+  forallb Proofs.C13Total.item_wf items = true -> utf8_valid s = true -> blen s <= u64_max ->
+  parse p s items <> Panic /\ parse p s items <> OutOfFuel /\
+  parse_and_remainder p s items <> Panic /\ parse_and_remainder p s items <> OutOfFuel.
+Proof. exact Proofs.C13Total.parse_never_panics_all. Qed.
+Print Assumptions C13_parse_never_panics.
+
+Example C13_parse_never_panics_inhabited :
+  forallb Proofs.C13Total.item_wf Proofs.C13Total.ex_items = true /\
+  (exists p, parse Model.Parsed.parsed_new Proofs.C13Total.ex_input_closed Proofs.C13Total.ex_items = Val (POk p)) /\
+  parse Model.Parsed.parsed_new Proofs.C13Total.ex_input_open Proofs.C13Total.ex_items = Val (PErr TooLong).
+Proof. exact Proofs.C13Total.ex_total. Qed.
+Print Assumptions C13_parse_never_panics_inhabited.
